@@ -1,0 +1,18 @@
+//go:build verif
+
+package remedies
+
+import "lunar/engine/utils"
+
+// Exporting shims for the external verification harness (property C12).
+// No behaviour: they only expose the plugins' private caches for reading.
+
+func (plugin *CachingPlugin) VerifC12Cache() *utils.MemoryCache[CachingPluginKey, CachedResponse] {
+	cache, _ := plugin.responseCache.(*utils.MemoryCache[CachingPluginKey, CachedResponse])
+	return cache
+}
+
+func (plugin *ResponseBasedThrottlingPlugin) VerifC12Cache() *utils.MemoryCache[CacheKey, CachedResponse] {
+	cache, _ := plugin.responseCache.(*utils.MemoryCache[CacheKey, CachedResponse])
+	return cache
+}
